@@ -2520,6 +2520,42 @@ def rule_equal_copy(f, site):
     return None
 
 
+def rule_pair_slice(f, site):
+    """P0-pair: `pair.0[..pair.1]` (or `[pair.1..]`) where `pair` is a local every definition of which is a literal
+    (array of N elements, constant k) with k <= N — a header picked together with its length by a `match`."""
+    if site.kind != "call:index" or len(site.ops) != 2:
+        return None
+    base, rng = peel(site.ops[0]), peel(site.ops[1])
+    if not (base[0] == "field" and str(base[2]) == "0" and peel(base[1])[0] == "var"):
+        return None
+    v = peel(base[1])
+    if rng[0] != "agg" or str(rng[1]).split("::")[-1] not in ("RangeTo", "RangeFrom", "RangeToInclusive"):
+        return None
+    bounds = [peel(x) for _, x in rng[3]]
+    if len(bounds) != 1 or not (bounds[0][0] == "field" and str(bounds[0][2]) == "1" and peel(bounds[0][1]) == v):
+        return None
+    incl = str(rng[1]).endswith("Inclusive")
+    b = site.body
+    seen = 0
+    for d in b.defs().get(v[2], []):
+        if d[2] != "assign" or d[3]["rv"].get("r") != "agg" or d[3]["rv"].get("ak") != "tuple" or len(d[3]["rv"]["ops"]) != 2:
+            return None
+        arr_op, k_op = d[3]["rv"]["ops"]
+        kk = k_op.get("k") if isinstance(k_op, dict) else None
+        if not kk or not isinstance(kk.get("v"), int) or isinstance(kk.get("v"), bool):
+            return None
+        pl = arr_op.get("m") or arr_op.get("c")
+        if not pl or pl["p"]:
+            return None
+        m = re.match(r"^\[[^;\]]+; (\d+)\]$", b.local_ty(pl["l"]) or "")
+        if not m or kk["v"] + (1 if incl else 0) > int(m.group(1)) or kk["v"] < 0:
+            return None
+        seen += 1
+    if seen:
+        return "every definition of the pair is (an array of N elements, a constant cut position within N): %d definition(s)" % seen
+    return None
+
+
 _BND = {}
 _WRITERS = {}
 
@@ -2600,7 +2636,8 @@ RULES = [("P0-const", lambda f, s, env: rule_const(s)),
          ("P0-range", lambda f, s, env: rule_type_range(f, s, terms=True)),
          ("P0-bound", lambda f, s, env: rule_bound(f, s)),
          ("P0-signbit", lambda f, s, env: rule_sign_bit(f, s)),
-         ("P0-copy", lambda f, s, env: rule_equal_copy(f, s))]
+         ("P0-copy", lambda f, s, env: rule_equal_copy(f, s)),
+         ("P0-pair", lambda f, s, env: rule_pair_slice(f, s))]
 
 
 def classify(f, sites):
